@@ -194,6 +194,9 @@ class Sym:
                 return True
         if x[0] == "field" and x[2] == "0" and x[1][0] == "downcast" and x[1][2] == "Some":
             y = strip(x[1][1], through_calls=False)
+            for _ in range(4):
+                if y[0] == "local":   # truncated provenance: continue from that local
+                    y = strip(self.b.expr_of_local(y[1]), through_calls=False)
             return y[0] == "call" and ecall_matches(y, r"Option::<.*>::replace$|^std::mem::replace$")
         return False
 
@@ -294,6 +297,9 @@ class Sym:
         if k == "call" and isinstance(x[1], str):
             if re.search(r"::saturating_sub$", x[1]) and len(x[3]) == 2:
                 return ("sat", self.term(x[3][0], depth + 1), self.term(x[3][1], depth + 1))
+            if re.search(r"::abs_diff$", x[1]) and len(x[3]) == 2:
+                ta, tb = self.term(x[3][0], depth + 1), self.term(x[3][1], depth + 1)
+                return ("add", ("sat", ta, tb), ("sat", tb, ta))
             if re.search(r"std::cmp::min$|Ord>?::min$", x[1]) and len(x[3]) == 2:
                 return ("min", self.term(x[3][0], depth + 1), self.term(x[3][1], depth + 1))
             if re.search(r"std::cmp::max$|Ord>?::max$", x[1]) and len(x[3]) == 2:
